@@ -89,11 +89,12 @@ let () = main_loop (fun w -> match w with
       | "none" -> None
       | code -> let reason = p_str () in let body = p_str () in Some ((cps_of_string code, reason), body)) in
     let disc = (match next () with "none" -> None | k -> Some (nat_of_int (int_of_string k))) in
+    let wc = p_bool () in
     let a = p_app () in
     if !toks <> [] then failwith "trailing tokens";
     let c = { c_ident = ident; c_expose_tracebacks = expose; c_log_socket_errors = logsock; c_date = date; c_tb = tb } in
     let r = { r_version = version; r_connection = conn; r_head = head; r_connection_close = cclose; r_error = err } in
-    let o = run_task c r a disc in
+    let o = run_task_wc c r a disc wc in
     Printf.sprintf "w=%s close=%s next=%s closes=%d hand=%s esc=%s wh=%s s500=%s nws1=%d"
       (if o.o_writes = [] then "none" else String.concat "," (List.map s_item o.o_writes))
       (b01 o.o_close) (b01 o.o_next) (int_of_nat o.o_closes) (b01 o.o_handover) (s_oexn o.o_escaped)
